@@ -245,7 +245,7 @@ class GroupBuild:
             self.unit_meta[unit] = dict(function=name, file=rel, clauses=cc, props=list(props), spec=spec)
         return cc
 
-    def fragment(self, unit, rel, name, impl, pattern, nth, sig, ret, contract, what, props=(), pre=''):
+    def fragment(self, unit, rel, name, impl, pattern, nth, sig, ret, contract, what, props=(), pre='', subst=()):
         """R16: a statement-level fragment of a function that is otherwise outside the subset (I/O, closures): the nth match of
         `pattern` inside the body of `name` is emitted as the body of a synthetic function with signature `sig` (the free
         variables of the fragment, their types read off the enclosing function) that returns `ret` afterwards.
@@ -264,6 +264,9 @@ class GroupBuild:
             close = X.match_close(body, mask, mt.end() - 1)
             whole = body[mt.start():close + 1]
         stmt = X.strip_comments(whole)
+        for (fa, fb) in subst:
+            # a free variable reached through `self.` becomes a parameter of the synthetic function
+            stmt = stmt.replace(fa, fb)
         fname = 'verif_fragment_%s_%d' % (name, nth)
         text = 'fn %s(%s) -> (res: %s)\n%s\n{\n    %s\n    %s;\n    %s\n}\n' % (fname, sig[0], sig[1], contract.rstrip(), pre, stmt.strip().rstrip(';'), ret)
         line0 = s.src[:o + ms[nth].start()].count('\n') + 1
